@@ -78,7 +78,7 @@ func (i *Interceptors) NewSegment(val string) (*Segment, error) {
 
 		seg.Type = Named
 		seg.Suffix = val[end+1:]
-		seg.Endpoint = val[len(val)-1] == endByte
+		seg.Endpoint = end == len(val)-1 // 参数之后没有其它内容。不能只看最后一个字符，字符串后缀也可能以 } 结尾。
 		seg.matcher = func(string) bool { return true }
 		seg.cleanName()
 		seg.calcAmbiguousLength()
@@ -91,7 +91,7 @@ func (i *Interceptors) NewSegment(val string) (*Segment, error) {
 		seg.Name = val[start+1 : separator]
 		seg.cleanName()
 		seg.Suffix = val[end+1:]
-		seg.Endpoint = val[len(val)-1] == endByte
+		seg.Endpoint = end == len(val)-1 // 参数之后没有其它内容。不能只看最后一个字符，字符串后缀也可能以 } 结尾。
 		seg.matcher = matcher
 		seg.calcAmbiguousLength()
 		return seg, nil
